@@ -170,6 +170,7 @@ fn main() {
             quiet_panics();
             let j = match args[2].as_str() {
                 "fold" => wl::symdiff::run_symfold(),
+                "fold-float" => wl::symdiff::run_symfold_float(),
                 "merge-btree" => wl::symdiff::run_merge::<wl::maps::B>(args[3].parse().unwrap(), args[4].parse().unwrap()),
                 "merge-ordmap" => wl::symdiff::run_merge::<im_rc::OrdMap<i64, i64>>(args[3].parse().unwrap(), args[4].parse().unwrap()),
                 _ => wl::symdiff::run_random(args[3].parse().unwrap(), args[4].parse().unwrap()),
@@ -198,7 +199,8 @@ fn main() {
         }
         "memo-one" => {
             quiet_panics();
-            let o = wl::memo::run_history(args[2].parse().unwrap());
+            let hs: u64 = args[2].parse().unwrap();
+            let o = if args.get(3).map(|s| s.as_str()) == Some("inner") { wl::memo::run_history_inner(hs) } else { wl::memo::run_history(hs) };
             for a in &o.actions { println!("{a}"); }
             if let Some(m) = o.violation { println!("VIOLATION C20 {m}"); 1 } else { 0 }
         }
